@@ -394,6 +394,69 @@ theorem hashFrame_not_injective :
     [(([97] : List Nat), ([120, 255, 98, 255, 121] : List Nat))] ≠ [([97], [120]), ([98], [121])] := by
   decide
 
+theorem split_at_ff : ∀ (a b x y : List Nat), 255 ∉ a → 255 ∉ b → a ++ 255 :: x = b ++ 255 :: y → a = b ∧ x = y
+  | [], [], x, y, _, _, h => by simpa using h
+  | [], q :: b, x, y, _, hb, h => by
+    simp only [List.nil_append, List.cons_append, List.cons.injEq] at h
+    exact absurd (by simp [← h.1]) hb
+  | p :: a, [], x, y, ha, _, h => by
+    simp only [List.nil_append, List.cons_append, List.cons.injEq] at h
+    exact absurd (by simp [h.1]) ha
+  | p :: a, q :: b, x, y, ha, hb, h => by
+    simp only [List.cons_append, List.cons.injEq] at h
+    obtain ⟨h1, h2⟩ := split_at_ff a b x y (fun m => ha (by simp [m])) (fun m => hb (by simp [m])) h.2
+    exact ⟨by rw [h.1, h1], h2⟩
+
+def FrameLike (r : List Nat) : Prop := r = [] ∨ ∃ t, r = 255 :: t
+
+theorem split_tail : ∀ (c c' r r' : List Nat), 255 ∉ c → 255 ∉ c' → FrameLike r → FrameLike r' →
+    c ++ r = c' ++ r' → c = c' ∧ r = r'
+  | [], [], r, r', _, _, _, _, h => by simpa using h
+  | [], q :: c', r, r', _, hc', hr, _, h => by
+    simp only [List.nil_append, List.cons_append] at h
+    rcases hr with rfl | ⟨t, rfl⟩
+    · simp at h
+    · simp only [List.cons.injEq] at h
+      exact absurd (by simp [← h.1]) hc'
+  | p :: c, [], r, r', hc, _, _, hr', h => by
+    simp only [List.nil_append, List.cons_append] at h
+    rcases hr' with rfl | ⟨t, rfl⟩
+    · simp at h
+    · simp only [List.cons.injEq] at h
+      exact absurd (by simp [h.1]) hc
+  | p :: c, q :: c', r, r', hc, hc', hr, hr', h => by
+    simp only [List.cons_append, List.cons.injEq] at h
+    obtain ⟨h1, h2⟩ := split_tail c c' r r' (fun m => hc (by simp [m])) (fun m => hc' (by simp [m])) hr hr' h.2
+    exact ⟨by rw [h.1, h1], h2⟩
+
+theorem hashFrame_cons (f : List Nat × List Nat) (fs : List (List Nat × List Nat)) :
+    hashFrame (f :: fs) = 255 :: (f.1 ++ 255 :: (f.2 ++ hashFrame fs)) := by
+  simp [hashFrame, List.flatMap_cons]
+
+theorem hashFrame_like (fs : List (List Nat × List Nat)) : FrameLike (hashFrame fs) := by
+  cases fs with
+  | nil => left; rfl
+  | cons f fs => right; exact ⟨_, hashFrame_cons f fs⟩
+
+/-- for text (no 0xff byte in paths and contents) the framing is injective: equal hash inputs come
+    from equal lists of (path, content) -/
+theorem hashFrame_injective : ∀ (fs gs : List (List Nat × List Nat)),
+    (∀ f ∈ fs, 255 ∉ f.1 ∧ 255 ∉ f.2) → (∀ g ∈ gs, 255 ∉ g.1 ∧ 255 ∉ g.2) →
+    hashFrame fs = hashFrame gs → fs = gs
+  | [], [], _, _, _ => rfl
+  | [], g :: gs, _, _, h => by rw [hashFrame_cons] at h; simp [hashFrame] at h
+  | f :: fs, [], _, _, h => by rw [hashFrame_cons] at h; simp [hashFrame] at h
+  | f :: fs, g :: gs, hf, hg, h => by
+    rw [hashFrame_cons, hashFrame_cons] at h
+    simp only [List.cons.injEq, true_and] at h
+    obtain ⟨h1, h2⟩ := split_at_ff f.1 g.1 _ _ (hf f (by simp)).1 (hg g (by simp)).1 h
+    obtain ⟨h3, h4⟩ := split_tail f.2 g.2 _ _ (hf f (by simp)).2 (hg g (by simp)).2
+      (hashFrame_like fs) (hashFrame_like gs) h2
+    have := hashFrame_injective fs gs (fun x hx => hf x (by simp [hx])) (fun x hx => hg x (by simp [hx])) h4
+    rw [this]
+    congr 1
+    exact Prod.ext h1 h3
+
 /-- Regenerated obligations: whether the entries loop of `apply` tracks every output as soon as it
     is written (selects `Driver/Misc.lean: rlTrack`), and the condition under which `apply` does
     not reload (the one `apply` of the model tests). -/
